@@ -7,7 +7,7 @@ EXTENDS Container
 CONSTANTS MaxParses, MaxBlocks
 
 E(t, p, n) == [tid |-> t, pid |-> p, name |-> n]
-TMaps == {<<>>, <<E(1, 1, "a")>>, <<E(1, 1, "a"), E(1, 2, "b")>>, <<E(1, 1, "a"), E(2, 1, "c")>>, <<E(2, 2, "d")>>}
+TMaps == {<<>>, <<E(0, 0, "k")>>, <<E(1, 1, "a")>>, <<E(1, 1, "a"), E(1, 2, "b")>>, <<E(1, 1, "a"), E(2, 1, "c")>>, <<E(2, 2, "d")>>}
 RecSeqs == {<<>>, <<1>>, <<1, 2>>}
 Chunkings == {<< <<>> >>, << <<1>> >>, << <<1, 2, 3>> >>, << <<1>>, <<2, 3>> >>, << <<1, 2>>, <<3>> >>,
               << <<1>>, <<2>>, <<3>> >>, << <<>>, <<1, 2, 3>> >>, << <<1, 2, 3>>, <<>> >>}
@@ -16,7 +16,7 @@ BlockSet == { [tag |-> "codes", txt |-> "x"], [tag |-> "codes", txt |-> "y"],
               [tag |-> "kexts", bins |-> <<1>>], [tag |-> "kexts", bins |-> <<2, 3>>],
               [tag |-> "dyld", bins |-> <<1>>, extra |-> 7], [tag |-> "dyld", bins |-> <<2>>, extra |-> 8],
               [tag |-> "procs", val |-> 1], [tag |-> "procs", val |-> 2], [tag |-> "images", val |-> 3],
-              [tag |-> "logs", evs |-> <<L(1, 2, 3, 9)>>], [tag |-> "logs", evs |-> <<L(1, 0, 3, 9), L(2, 1, 0, 4)>>],
+              [tag |-> "logs", evs |-> <<L(0, 1, 3, 9)>>], [tag |-> "logs", evs |-> <<L(0, -1, 3, 9), L(1, 0, 0, 4)>>],
               [tag |-> "strings", idx |-> <<"m", "P">>], [tag |-> "other"] }
 RECURSIVE SeqsUpTo(_, _)
 SeqsUpTo(S, n) == IF n = 0 THEN {<<>>}
